@@ -129,7 +129,13 @@ class BasicContiguousVector<cntgs::Options<Option...>, Parameter...>
     {
     }
 
-    BasicContiguousVector(BasicContiguousVector&&) = default;
+    BasicContiguousVector(BasicContiguousVector&& other) noexcept
+        : max_element_count_(other.max_element_count_),
+          memory_(std::move(other.memory_)),
+          locator_(std::move(other.locator_))
+    {
+        other.locator_->resize(size_type{}, other.memory_begin());
+    }
 
     BasicContiguousVector& operator=(const BasicContiguousVector& other)
     {
@@ -474,6 +480,7 @@ class BasicContiguousVector<cntgs::Options<Option...>, Parameter...>
         max_element_count_ = other.max_element_count_;
         memory_ = std::move(other.memory_);
         locator_ = std::move(other.locator_);
+        other.locator_->resize(size_type{}, other.memory_begin());
     }
 
     constexpr void move_assign(BasicContiguousVector&& other)
